@@ -58,10 +58,8 @@ func (r *yieldRewriter) rewriteRanges(block *ast.BlockStmt) {
 				do(cstNewMapIter, n.X)
 			case *types.Chan:
 				do(cstNewChanIter, n.X)
-			case *types.Signature:
-				panic("implement me: range func")
 			default:
-				// e.g., pointer to array, type parameter
+				// e.g., range func, pointer to array, type parameter
 				// left as native range stmt, so yield must not be called in it
 				noYield := !r.rewriter.containsYield(r.pkg, n.Body)
 				r.assert(noYield, n, "range over %s with yield not supported", ty)
